@@ -370,4 +370,34 @@ pub trait Driver: Send + Sync {
     fn verify_ledger(&self, dir: &str) -> Result<(), String>;
     fn latest_version(&self) -> u32;
     fn trait_name(&self) -> String;
+    /// (is `AbiConnection<dyn Trait>` Send, is it Sync), as decided by the compiler for the
+    /// library under test (see `Probe`)
+    fn connection_markers(&self) -> (bool, bool);
+}
+
+/// Compile-time question "does T implement Send / Sync" answered as a runtime bool at a
+/// monomorphic call site: the inherent method (only present when the bound holds) wins over
+/// the trait method.
+pub struct Probe<T: ?Sized>(pub std::marker::PhantomData<T>);
+pub trait NotSync {
+    fn is_sync(&self) -> bool {
+        false
+    }
+}
+impl<T: ?Sized> NotSync for Probe<T> {}
+impl<T: ?Sized + Sync> Probe<T> {
+    pub fn is_sync(&self) -> bool {
+        true
+    }
+}
+pub trait NotSend {
+    fn is_send(&self) -> bool {
+        false
+    }
+}
+impl<T: ?Sized> NotSend for Probe<T> {}
+impl<T: ?Sized + Send> Probe<T> {
+    pub fn is_send(&self) -> bool {
+        true
+    }
 }
